@@ -339,13 +339,24 @@ def check_forget_scope(ck, cm: CacheModel):
     ck.need(own, "forget_call takes no call argument")
 
     def inner(e, fn_name):
-        """the argument of os.path.<fn_name>(...) inside `e` (locals expanded), or None"""
+        """the argument of os.path.<fn_name>(...) inside `e` (locals expanded), or None; `d, b = os.path.split(P)` counts as
+        d = dirname(P), b = basename(P)"""
         if e is None:
             return None
         ids = f2.nodes(lk)
         x = f2.expand(e, ids[0]) if ids else e
         hits = [c_ for c_ in ast.walk(x) if isinstance(c_, ast.Call) and A.call_attr(c_) == fn_name and len(c_.args) == 1]
-        return hits[0].args[0] if len(hits) == 1 else None
+        if len(hits) == 1:
+            return hits[0].args[0]
+        for nm in [n_ for n_ in ast.walk(x) if isinstance(n_, ast.Name)]:
+            for d_ in (f2.df.reaching(ids[0], nm.id) if ids else []):
+                st_ = d_.stmt if d_.stmt is not None else (f2.cfg.node(d_.node).ast if d_.node >= 0 else None)
+                if isinstance(st_, ast.Assign) and len(st_.targets) == 1 and isinstance(st_.targets[0], ast.Tuple) and len(st_.targets[0].elts) == 2 \
+                        and isinstance(st_.value, ast.Call) and A.call_attr(st_.value) == "split" and "path" in (A.call_dotted(st_.value) or "") and len(st_.value.args) == 1:
+                    idx = [A.norm(t_) for t_ in st_.targets[0].elts].index(nm.id) if nm.id in [A.norm(t_) for t_ in st_.targets[0].elts] else None
+                    if idx == (0 if fn_name == "dirname" else 1):
+                        return safe_expand(f2, st_.value.args[0], st_)
+        return None
 
     dn, bn = inner(d_dir, "dirname"), inner(d_pre, "basename")
     cps = []
@@ -664,12 +675,12 @@ class PathModel:
         if isinstance(x, ast.Call) and A.call_attr(x) == "str" and len(x.args) == 1:
             return self._flat(x.args[0])
         if isinstance(x, ast.Attribute) and x.attr == "key" and isinstance(x.value, ast.Call):
-            if A.call_attr(x.value) == "_get_function_path" and len(x.value.args) == 1:
-                return [("fnpath", A.norm(x.value.args[0]))]
+            if A.call_attr(x.value) == "_get_function_path" and len(x.value.args) + len(x.value.keywords) == 1:
+                return [("fnpath", A.norm(A.arg_or_kw(x.value, 0, "fn_reference")))]
             if A.call_attr(x.value) == "DataSourceKey" and len(x.value.args) == 1:
                 return self._flat(x.value.args[0])
-        if isinstance(x, ast.Call) and A.call_attr(x) == "_get_function_path" and len(x.args) == 1:
-            return [("fnpath", A.norm(x.args[0]))]
+        if isinstance(x, ast.Call) and A.call_attr(x) == "_get_function_path" and len(x.args) + len(x.keywords) == 1:
+            return [("fnpath", A.norm(A.arg_or_kw(x, 0, "fn_reference")))]
         if isinstance(x, ast.Call) and A.call_attr(x) == "_get_path" and len(x.args) + len(x.keywords) == 2:
             shape = self._get_path_shape()
             if shape is not None:
@@ -855,7 +866,7 @@ def check_path_scheme(ck):
     vlit = sorted(lits_pv)[0] if lits_pv else ".versions"
     # every entry a walker hands out was reached past a test that excludes the versions directory (guard clause with `continue`,
     # nested if, either polarity); text comparison only where the walker has no recognisable emit statement
-    units = list(ls.fi.nested.values()) or [ls.fi]
+    units = list(_walkers(ck, ls).values()) or [ls.fi]
     skip_ok = 0
     for fn in units:
         f_ = ls if fn is ls.fi else FA(ck, fn)
@@ -886,13 +897,28 @@ def check_path_scheme(ck):
     check_strip_is_not_prefix_removal(ck, R)
 
 
+def _walkers(ck, ls: FA):
+    """The generators that enumerate a directory for list_keys_nonversioned: its nested functions, or -- when they were
+    hoisted out -- the methods of the same class it calls that contain a `yield`.  -> {name: FuncInfo}"""
+    out = dict(ls.fi.nested)
+    cls = ls.fi.cls
+    if cls is not None:
+        for c in ls.calls():
+            f = c.func
+            if isinstance(f, ast.Attribute) and isinstance(f.value, ast.Name) and f.value.id in ("self", "cls", cls.name) and f.attr in cls.methods:
+                m = cls.methods[f.attr]
+                if any(isinstance(y, (ast.Yield, ast.YieldFrom)) for y in A.walk_body(m.node)):
+                    out[f.attr] = m
+    return out
+
+
 def _suffix_strip_sites(ck, ls: FA):
     """Statements of the listing (and its nested walkers) that cut a literal suffix off a name, by what they do:
     `x = x[:-K]` / `x[0:-K]` / `x[:-len('<lit>')]` reached only when `<...>.endswith('<lit>')` holds, or
     `x = x.removesuffix('<lit>')`.  -> [(FA, statement, keyed node, literal, characters cut, path conditions)]"""
     import re
     out = []
-    for fn in [ls.fi] + list(ls.fi.nested.values()):
+    for fn in [ls.fi] + list(_walkers(ck, ls).values()):
         f_ = ls if fn is ls.fi else FA(ck, fn)
         for st in f_.stmts(ast.Assign):
             v = st.value
@@ -957,7 +983,7 @@ def check_escape_inverse(ck, R):
                 helper = cls.methods[nm]
                 if any(A.call_attr(x) in ("unquote", "unquote_plus") for x in A.body_calls(helper.node)):
                     collect(helper.node, cls)
-    for fn in ls.fi.nested.values():
+    for fn in _walkers(ck, ls).values():
         collect(fn.node, ls.fi.cls)
     ok_inv = oke and decoders == {"unquote"}
     ck.ob(R, ek.key(None, "escape"), ok_inv, "':' is escaped as a percent code that the listing decodes with unquote (the exact inverse)" if ok_inv else
@@ -989,7 +1015,8 @@ def check_listing_filters(ck, R):
     """Every filter of list_keys_nonversioned is applied inside the walkers, before an entry is
     counted against `limit`; nothing narrows the listing afterwards."""
     ls = FA(ck, FSDS + ".list_keys_nonversioned")
-    for name, sub in ls.fi.nested.items():
+    walkers = _walkers(ck, ls)
+    for name, sub in walkers.items():
         f = FA(ck, sub)
         # the counter is the local that is compared with `limit`
         cmpd = {x.id for n_ in A.walk_body(sub.node) if isinstance(n_, ast.Compare) and "limit" in A.names_in(n_) for x in ast.walk(n_) if isinstance(x, ast.Name)} - {"limit"}
@@ -1011,7 +1038,7 @@ def check_listing_filters(ck, R):
             return True
         if isinstance(e, ast.Call) and isinstance(e.func, ast.Name) and e.func.id in ("list", "tuple") and len(e.args) == 1 and not e.keywords:
             return walk_output(e.args[0], at_nodes, depth)
-        if isinstance(e, ast.Call) and A.call_attr(e) in ls.fi.nested and isinstance(e.func, ast.Name):
+        if isinstance(e, ast.Call) and A.call_attr(e) in walkers and (isinstance(e.func, ast.Name) or (isinstance(e.func, ast.Attribute) and isinstance(e.func.value, ast.Name))):
             return True
         if isinstance(e, ast.Name) and depth < 4:
             ds = {}
